@@ -91,6 +91,7 @@ type calcOp struct {
 	found  bool
 	reuse  bool // pooled buffer: this call reuses the previous call's backing array (same offsets, same length, other bytes)
 	shared bool // the buffer object is shared with another task's concurrent Calc (read-only by contract)
+	direct bool // Calc on a service instance constructed by the caller (zero value, as package init builds them) instead of the registered one
 }
 
 // callCalc invokes svc.Calc(buf) by reflection, so that the harness does not pin the services'
@@ -202,6 +203,7 @@ func runC14(c *RunCtx) {
 			op.lead = []int{0, 0, 1, 5, 64, 300}[t.Intn(6)]
 			op.slack = []int{0, 1, 64, 4096}[t.Intn(4)]
 			op.twice = t.Intn(3) == 0
+			op.direct = t.Intn(5) == 0
 			if j > 0 && t.Intn(3) == 0 {
 				// the caller's pooled buffer: same array, same offsets and length as its previous call,
 				// rewritten in place with other bytes, given to the same service again
@@ -247,6 +249,10 @@ func runC14(c *RunCtx) {
 				op.found = found
 				if !found {
 					continue
+				}
+				if op.direct {
+					// an instance the application constructs itself, the way package init does
+					svc = []any{&codec.Crc16ChecksumService{}, &codec.Crc32ChecksumService{}, &codec.SseBinChecksumService{}, &codec.SzseBinChecksumService{}}[op.algo]
 				}
 				if op.shared {
 					func() {
@@ -341,6 +347,9 @@ func runC14(c *RunCtx) {
 				infraFatal("built-in checksum service %s is not registered in this process", a.Name)
 			}
 			where := fmt.Sprintf("caller%d call #%d: %s.Calc over %s (%d bytes consumed before, slack %d)", ti, j, a.Name, op.desc, op.lead, op.slack)
+			if op.direct {
+				where += " on a service instance constructed by the caller"
+			}
 			if op.lead > 0 || op.slack == 0 {
 				c.Fire("hist.consumed")
 			}
